@@ -68,6 +68,7 @@ type Scenario struct {
 	HealMs     int64          `json:"heal_ms"` // faults stop at this simulated instant after start
 	Sched      []byte         `json:"sched"`
 	ProbeKnown bool           `json:"probe_known,omitempty"` // set only in findings/ replay files: do not exclude input classes of listed known findings
+	Preempt    int64          `json:"preempt,omitempty"`     // mean number of visited preemption points (function entries, loop bodies) per forced switch; 0 = goroutines switch only at synchronisation operations
 	SchedSeed  uint64         `json:"sched_seed"`            // PRNG seed for scheduler decisions after the tape is used up (0 = lowest id first)
 }
 
@@ -220,5 +221,6 @@ func genScenario(rt *rapid.T, hostile bool) Scenario {
 	s.HealMs = rapid.SampledFrom([]int64{50, 1000, 20000}).Draw(rt, "heal")
 	s.Sched = rapid.SliceOfN(rapid.Byte(), 0, 64).Draw(rt, "sched")
 	s.SchedSeed = rapid.Uint64().Draw(rt, "schedseed")
+	s.Preempt = rapid.SampledFrom([]int64{0, 0, 5, 40, 400}).Draw(rt, "preempt")
 	return s
 }
